@@ -135,3 +135,29 @@ M("c06-stream-template-ignores", "C06", S, "  def __rbinary__(cls, op):\n    op_
 # benign
 M("c06-benign-add-hoisted-copies", "C06", F, "      return ZFilter(self.numpoly * other.denpoly.copy() +\n                     other.numpoly * self.denpoly.copy(),\n                     self.denpoly * other.denpoly)", "      num = self.numpoly * other.denpoly.copy() + other.numpoly * self.denpoly.copy()\n      return ZFilter(num, self.denpoly * other.denpoly)", benign=True)
 M("c06-benign-mul-rename", "C06", P, "    for k1, v1 in thubbed_self:\n      for k2, v2 in thubbed_other:\n        if k1 + k2 in new_data:\n          new_data[k1 + k2] += v1 * v2\n        else:\n          new_data[k1 + k2] = v1 * v2", "    for ka, va in thubbed_self:\n      for kb, vb in thubbed_other:\n        if ka + kb in new_data:\n          new_data[ka + kb] += va * vb\n        else:\n          new_data[ka + kb] = va * vb", benign=True)
+
+# ------------------------------------------------------------------ C02
+A = "lazy_analysis.py"
+MI = "lazy_misc.py"
+M("c02-map-eager", "C02", S, "    self._data = xmap(func, self._data)", "    self._data = iter(list(xmap(func, self._data)))", "R2.1")
+M("c02-init-peeks", "C02", S, "        self._data = iter(dargs[0])", "        self._data = iter(dargs[0])\n        first = next(self._data)\n        self._data = it.chain([first], self._data)", "R2.1")
+M("c02-binary-eager", "C02", S, "        return Stream(xmap(op_func, iter(self), iter(other)))\n      return Stream(xmap(lambda a: op_func(a, other), iter(self)))\n    return dunder\n\n  def __rbinary__", "        return Stream([op_func(a, b) for a, b in zip(iter(self), iter(other))])\n      return Stream(xmap(lambda a: op_func(a, other), iter(self)))\n    return dunder\n\n  def __rbinary__", "R2.1")
+M("c02-tostream-eager", "C02", S, "    return Stream(func(*args, **kwargs))", "    return Stream(list(func(*args, **kwargs)))", "R2.1.tostream")
+M("c02-thub-peeks", "C02", S, "    iter_self = super(StreamTeeHub, self).__iter__()\n", "    iter_self = super(StreamTeeHub, self).__iter__()\n    iter_self = iter(tuple(iter_self))\n", "R2.1")
+M("c02-filter-call-list", "C02", F, "    arguments = [iter(seq), memory, zero]", "    arguments = [iter(list(seq)), memory, zero]", "R2.1")
+M("c02-clip-list", "C02", A, "      return Stream(sig)\n", "      return Stream(list(sig))\n", "R2.1")
+M("c02-clip-listcomp", "C02", A, "    return Stream(el if el < high else high for el in sig)", "    return Stream([el if el < high else high for el in sig])", "R2.1")
+M("c02-envelope-take", "C02", A, "  return lowpass(cutoff)(abs(thub(sig, 1)))", "  sig = Stream(sig)\n  sig.peek(1)\n  return lowpass(cutoff)(abs(thub(sig, 1)))", "R2.1")
+M("c02-zcross-lookahead", "C02", A, "  for el in seq_iter: # Keep the same iterator (needed for non-generators)\n    if el * last_sign < neg_hyst:", "  for el in seq_iter: # Keep the same iterator (needed for non-generators)\n    nxt = next(seq_iter, el)\n    if el * last_sign < neg_hyst:", "R2.2")
+M("c02-zcross-missing-yield", "C02", A, "      last_sign = -1 if el < 0 else 1\n      yield 1\n    else:\n      yield 0", "      last_sign = -1 if el < 0 else 1\n      yield 1", "R2.2")
+M("c02-maverage-cond-yield", "C02", A, "      mean_value += new_value\n      yield mean_value", "      mean_value += new_value\n      if len(data) == size:\n        yield mean_value", "R2.2")
+M("c02-unwrap-double-yield", "C02", A, "    yield d1 + delta\n    d0 = d1", "    yield d1 + delta\n    yield d1 + delta\n    d0 = d1", "R2.2")
+M("c02-accumulate-prefetch", "C02", "lazy_itertools.py", "  for el in iterator:\n    sum_data += el\n    yield sum_data", "  for el in iterator:\n    sum_data += el + next(iterator, 0)\n    yield sum_data", "R2.2")
+M("c02-blocks-next", "C02", MI, "    for el in seq:\n      res.append(el)\n      if idx == last_idx:\n        yield res\n        idx = reinit_idx", "    seq = iter(seq)\n    for el in seq:\n      res.append(el)\n      if idx == last_idx:\n        yield res\n        res.append(next(seq))\n        idx = reinit_idx", "R2.3")
+M("c02-parallel-no-hub", "C02", F, "    arg0 = thub(args[0], len(self))", "    arg0 = thub(args[0], len(self) + 1)", "R2.1")
+M("c02-tablelookup-eager", "C02", "lazy_synth.py", "    tbl_iter = modulo_counter(part, total_len_float, step)", "    tbl_iter = list(modulo_counter(part, total_len_float, step))", "R2.1")
+M("c02-lowpass-consumes", "C02", F, "  R = thub(exp(-cutoff), 2)\n  return (1 - R) / (1 - R * z ** -1)", "  cutoff = list(cutoff) if isinstance(cutoff, Iterable) else cutoff\n  R = thub(exp(-cutoff), 2)\n  return (1 - R) / (1 - R * z ** -1)", "R2.1")
+M("c02-modulo-double-yield", "C02", "lazy_synth.py", "        for p, m, s in xzip(start, modulo, step):\n          c += p - lastp\n          c = c % m % m\n          yield c", "        for p, m, s in xzip(start, modulo, step):\n          c += p - lastp\n          c = c % m % m\n          yield c\n          yield c", "R2.2")
+# benign
+M("c02-benign-zcross-refactor", "C02", A, "    if el * last_sign < neg_hyst:\n      last_sign = -1 if el < 0 else 1\n      yield 1\n    else:\n      yield 0", "    crossed = el * last_sign < neg_hyst\n    if crossed:\n      last_sign = -1 if el < 0 else 1\n    yield 1 if crossed else 0", benign=True)
+M("c02-benign-map-genexp", "C02", S, "    self._data = xmap(func, self._data)", "    self._data = (func(el) for el in self._data)", benign=True)
